@@ -852,7 +852,7 @@ pub fn run(args: &Args, model: &mut Model) -> Report {
             let _ = check_case(&cx, &c, model, &mut rep);
         }
         deep_nesting(&cx, model, &mut rep);
-        let n = if args.thorough { 60000 } else { 3000 };
+        let n = if args.thorough { 40000 } else { 3000 };
         for index in 1..=n {
             let mut p = Prng::for_case(args.seed, index);
             let (text, kind) = match p.below(10) {
